@@ -115,14 +115,22 @@ def r3_axes(ctx):
     if len(stacks) < 3:
         ctx.violation("C17.R3", g, g.node, "the three histories are not all stacked", construct="stacks")
     call = [c for c in ast.walk(g.node) if isinstance(c, ast.Call) and U(c.func) == "self._compute_individual_parameters_from_samples_torch"]
-    gl = Canon(g.node).lines(False, True)
+    cg_ = Canon(g.node)
+    gl = cg_.lines(False, True)
     b = unify(gl, HIST[2:])
-    CALL = "$0._compute_individual_parameters_from_samples_torch"
     ok = False
-    if b is not None:
-        hb = {k: b[k] for k in ("vh", "a", "r")}
-        ok = unify(gl, ["?tv = {?k: torch.stack(?h...) for ?k, ?h in ?vh.items()}", "?ta = torch.stack(?a...)", "?tr = torch.stack(?r...)", "..." + CALL + "(?tv, ?ta, ?tr)..."], hb) is not None \
-            or unify(gl, ["..." + CALL + "({?k: torch.stack(?h...) for ?k, ?h in ?vh.items()}, torch.stack(?a...), torch.stack(?r...))..."], hb) is not None
+    if b is not None and call and len(call[0].args) == 3 and not call[0].keywords:
+        import re as _re
+        from ..astq import local_defs
+        defs = local_defs(g.node)
+
+        def one(e):  # a name bound once stands for its definition
+            vs = defs.get(e.id, []) if isinstance(e, ast.Name) else []
+            return vs[0] if len(vs) == 1 and vs[0] is not None else e
+        a0, a1, a2 = (cg_.text(one(x), False, cg_.last_order) for x in call[0].args)
+        ST = r"torch\.stack\(%s(, dim=0|, 0)?\)"
+        ok = bool(_re.fullmatch(ST % _re.escape(b["a"]), a1)) and bool(_re.fullmatch(ST % _re.escape(b["r"]), a2)) \
+            and bool(_re.fullmatch(r"\{(%\d+): torch\.stack\((%\d+)(, dim=0|, 0)?\) for \1, \2 in " + _re.escape(b["vh"]) + r"\.items\(\)\}", a0))
     ctx.check(ok, "C17.R3", g, call[0] if call else g.node, "(values, attachments, regularities) handed over in this order", "attachment and regularity histories are swapped / not handed to the estimator")
     m = ix.func("leaspy.algo.personalize.mean_posterior", "MeanPosteriorAlgorithm._compute_individual_parameters_from_samples_torch", "C17.R3")
     rets = [s for s in statements(m.node) if isinstance(s, ast.Return)]
